@@ -130,6 +130,16 @@ fn install_panic_hook() {
 /// Execute one run. `extra` is a scenario-specific argument (e.g. an index into an enumerated
 /// space) that is part of the replay file.
 pub fn run_one(scn: Scenario, tape: Tape, sched: Option<Vec<u32>>, seed: u64, extra: u64, trace_on: bool) -> RunResult {
+    // clock origin: a function of the seed only (part of every replay file)
+    let origin = match mix(seed, 0xC10C) % 16 {
+        0 => 1,
+        1 => 999_999,
+        2 => (1u64 << 32) - 3_000_000,           // u32 microseconds wrap a few seconds into the run
+        3 => (1u64 << 32) * 1000 - 2_000_000,    // u32 milliseconds wrap
+        4 => 1u64 << 52,
+        _ => 0,
+    };
+    clock::set_origin(origin);
     clock::reset();
     REPLAY_SCHED.with(|r| *r.borrow_mut() = sched);
     let mut tape = tape;
@@ -200,7 +210,7 @@ pub fn run_one(scn: Scenario, tape: Tape, sched: Option<Vec<u32>>, seed: u64, ex
             harness_error = Some(format!("harness panic at {loc}: {msg}"));
         }
     }
-    let sim_time = clock::now();
+    let sim_time = clock::now() - clock::origin();
     RunResult {
         violations: std::mem::take(&mut w.violations),
         stats: std::mem::take(&mut w.stats),
